@@ -169,20 +169,25 @@ Fixpoint casts_mod (b : N) (l : list castk) : bool :=
     end
   end.
 
-(** side condition under which the general theorems hold; evaluated on the regenerated constants *)
-Definition filter_consts_ok (c : filter_consts) : bool :=
+(** side conditions under which the general theorems hold; evaluated on the regenerated constants.
+    One per property, so that a change that concerns only the uid filters does not touch C07's obligation and vice versa. *)
+Definition chain_consts_ok (c : filter_consts) : bool :=
   (copy_n c =? chain_max c - 1) && (term_idx c =? chain_max c - 1) && (1 <=? chain_max c)
   && (ini_max_line c <=? chain_max c - 1) && (ini_max_line c <=? name_max c) && (1 <=? arg_max c)
   && (len (default_chain c) <? ini_max_line c)
   && list_eqb (chain_delim c) [SEMI] && list_eqb (name_delim c) [COLONB]
   && existsb is_nil (reg_names c)
   && (names_before_sentinel (reg_names c) <=? length (reg_ptrs c))%nat
-  && negb (Z.eqb (pass_val c) (drop_val c))
-  && (33 <=? long_bits c) && (uid_bits c =? 32)
+  && negb (Z.eqb (pass_val c) (drop_val c)).
+
+Definition uid_consts_ok (c : filter_consts) : bool :=
+  (33 <=? long_bits c) && (uid_bits c =? 32)
   && query_eqb (only_query c) QGetuid && query_eqb (exclude_query c) QGetuid && query_eqb (root_query c) QGetuid
   && conv_is_atol (only_conv c) && conv_is_atol (exclude_conv c)
   && casts_mod (uid_bits c) (only_casts c) && casts_mod (uid_bits c) (exclude_casts c)
   && Z.eqb (root_value c) 0 && beq (csv_delim c) COMMA.
+
+Definition filter_consts_ok (c : filter_consts) : bool := chain_consts_ok c && uid_consts_ok c.
 
 (** * parser.c: csvToArgList — in-place split.  A pointer is an offset into the duplicated argument. *)
 Definition count_byte (d : byte) (s : list byte) : nat := length (filter (beq d) s).
